@@ -81,6 +81,11 @@ def realize(case, rng):
         pub = t + 1000 + rng.randrange(500)
         cal_t = t + 1 if (has("calAggrTime") or has("calShape")) else t
         shape = list(reversed(ksi.cal_shape(pub, cal_t)))
+        if has("calShapeNone"):
+            # link directions that are the shape of no leaf at all: surplus link(s) at the leaf end, or at the root end (checked against the reference derivation)
+            cands = [[False] * k + shape for k in (1, 2)] + [[True] + shape, shape + [False], shape + [True, False]]
+            cands = [x for x in cands if ksi.cal_time(x, pub) is None]
+            shape = rng.choice(cands)
         clinks = [(l, ksi.fake_imprint(1, rng.randbytes(8))) for l in shape]
         cin = flip(h) if has("calInput") else h
         root = ksi.cal_aggregate(clinks, cin)
